@@ -49,6 +49,9 @@ def pow2_biases(fn):
                 r = r.args[0]
             if isinstance(r, ast.BinOp) and isinstance(r.op, ast.Sub) and num(r.left) is not None:
                 out.append((n, num(r.left)))
+            elif isinstance(r, ast.BinOp) and isinstance(r.op, ast.Sub) and num(r.right) is not None:
+                # the reciprocal spelled directly: 2**(X - c) = 1 / 2**(c - X)
+                out.append((n, num(r.right)))
     return out
 
 
@@ -112,6 +115,13 @@ def run(ctx):
         ctx.ok('R-ARLCONST', 'precision denominator', wp, '%s = 2 x offset' % pd[0][1])
     elif badd:
         ctx.violation(Finding('R-ARLCONST', RP, 'pack2d', api.stmt_of(badd[0][0]), 'precision denominator %s is not 2 x offset' % badd[0][1]))
+    # ---- the byte offset is subtracted in floating point (uint8 - int stays uint8 and wraps below the offset)
+    for n_, k_ in us:
+        if isinstance(n_.right, ast.Constant) and isinstance(n_.right.value, int) and 'uint8' in norm(n_.left):
+            ctx.violation(Finding('R-WORKPREC', RP, 'unpack', api.stmt_of(n_), 'the offset %d is subtracted from the uint8 view as a Python integer: the result stays uint8, so every byte below the offset '
+                                  '(a negative difference) wraps around instead of becoming negative' % k_), oid='uint8 offset')
+        elif 'uint8' in norm(n_.left):
+            ctx.ok('R-WORKPREC', 'uint8 offset', wu, norm(n_)[:60])
     # ---- R-EXPROUND
     guard = None
     for st in iter_stmts(pack.body):
@@ -405,6 +415,23 @@ def run(ctx):
                                   'call without that argument' % (pn, norm(d_))), oid='%s:%s' % (q_, pn))
     if not any(o['rule'] == 'R-NOSTATE' and o['status'] == 'violated' for o in ctx.obligations):
         ctx.ok('R-NOSTATE', 'module', 'src/PseudoNetCDF/%s' % RP, '%d functions, no mutated mutable default' % nmd)
+    # ---- R-LAYUNION: the reader offers the union of the upper-air variables of all level groups
+    ctx.rule('R-LAYUNION', 'arlpackedbit.__init__: the layer variable list is collected over every level group of the index record')
+    ini = mod.func('arlpackedbit.__init__')
+    wini = 'src/PseudoNetCDF/%s arlpackedbit.__init__' % RP
+    lk = [st for st in iter_stmts(ini.body) if isinstance(st, ast.Assign) and norm(st.targets[0]) == 'self._layvarkeys']
+    first = [n for st in iter_stmts(ini.body) for n in ast.walk(st) if isinstance(n, ast.Subscript) and "['laykeys']" in norm(n.value) and isinstance(n.slice, ast.Constant)]
+    loops_ = [st for st in iter_stmts(ini.body) if isinstance(st, ast.For) and "['laykeys']" in norm(st.iter)] + \
+        [c for st in iter_stmts(ini.body) for c in ast.walk(st) if isinstance(c, ast.comprehension) and "['laykeys']" in norm(c.iter)]
+    if not lk:
+        ctx.undec('R-LAYUNION', '_layvarkeys', wini, 'assignment of self._layvarkeys not found')
+    elif first:
+        ctx.violation(Finding('R-LAYUNION', RP, 'arlpackedbit.__init__', api.stmt_of(first[0]), 'only level group %s of the index record is consulted for the upper-air variable names: a variable that is written only '
+                              'on other levels is missing from the file object' % norm(first[0].slice)))
+    elif loops_:
+        ctx.ok('R-LAYUNION', '_layvarkeys', wini, 'collected in a loop over every level group')
+    else:
+        ctx.undec('R-LAYUNION', '_layvarkeys', wini, 'collection idiom not recognised')
     # ---- R-GRIDSLOT: extended-grid offsets: first GRID byte <-> x / NX, second <-> y / NY
     ctx.rule('R-GRIDSLOT', 'inqarlpackedbit: the x offset comes from GRID[0] and is added to NX, the y offset from GRID[1] and is added to NY')
     iq = mod.func('inqarlpackedbit')
